@@ -30,7 +30,7 @@ ASSUMPTIONS = ["remove_values / factor_values are generated in the type the colu
                "not documented)", "at most one remap_columns with integer_sources per list (the source column is text "
                "afterwards)", "tables are read from TSV text exactly as Dispatcher.get_data_file reads files"]
 
-COLUMNS = ["onset", "duration", "code", "resp", "val", "extra"]
+COLUMNS = ["onset", "duration", "code", "resp", "val", "extra", "amt"]
 CODES = ["go", "stop", "a1", "n/a", "b2"]
 RESPS = ["left", "right", "n/a", "3", "none"]
 OPT_OMITTED = "optional-parameter-omitted"
@@ -55,6 +55,8 @@ def table(draw, need=()):
                 row[c] = draw(st.sampled_from(CODES))
             elif c == "resp":
                 row[c] = draw(st.sampled_from(RESPS))
+            elif c == "amt":
+                row[c] = draw(st.sampled_from(["1.0", "2.0", "2.5", "10.0"]))      # a column read as floats
             elif c == "val":
                 row[c] = draw(st.sampled_from(["1", "2", "3", "10", "1", "2", "3", "10", "n/a"]))
             else:
@@ -111,14 +113,14 @@ def operation(draw):
         elif mode == 1:
             feats.append(OPT_OMITTED)
     elif kind == "remap_columns":
-        src = draw(st.sampled_from([["code"], ["code", "resp"], ["val"]]))
+        src = draw(st.sampled_from([["code"], ["code", "resp"], ["val"], ["amt"]]))
         dst = draw(st.sampled_from([["kind"], ["kind", "grp"], ["extra"]]))
         nmap = draw(st.integers(1, 4))
         keys = []
         for i in range(nmap):
             key = []
             for s in src:
-                key.append(draw(st.sampled_from({"code": CODES, "resp": RESPS, "val": [1, 2, 3]}[s])))
+                key.append(draw(st.sampled_from({"code": CODES, "resp": RESPS, "val": [1, 2, 3], "amt": [1.0, 2.0, 2.5]}[s])))
             if key not in keys:
                 keys.append(key)
         p = {"source_columns": src, "destination_columns": dst,
@@ -295,9 +297,7 @@ def ref_apply(o, cols, rows):
                 elif c in ints:
                     key.append(str(int(v)))
                 else:
-                    if isinstance(v, float):
-                        raise Skip()
-                    key.append(str(v))
+                    key.append(str(v))      # a float column is matched through its text ('1.0')
             hit = table_.get(tuple(key))
             nr = dict(r)
             # source columns come back as text
@@ -327,22 +327,43 @@ def ref_apply(o, cols, rows):
         out = []
         prev_is_code = False
         prev = None
+        extent = {}       # index in out of a row that absorbed others -> latest end (onset + duration, n/a = 0)
+
+        def end_of(x):
+            try:
+                d = float(x["duration"]) if x["duration"] is not None else 0.0
+                return float(x["onset"]) + (0.0 if d != d else d)
+            except (TypeError, ValueError):
+                return None
+
         for r in rows:
             is_code = r[col] is not None and r[col] == p["event_code"]
             if is_code and prev_is_code and all(r[c] == prev[c] for c in match):
                 prev = r
+                if p["set_durations"]:
+                    k_ = len(out) - 1
+                    ends = [e for e in (extent.get(k_, end_of(out[k_])), end_of(r)) if e is not None]
+                    extent[k_] = max(ends) if len(ends) == 2 else None
                 continue          # merged into the first row of the run
             out.append(dict(r))
             prev_is_code = is_code
             prev = r
         if p["set_durations"]:
-            for r in out:
-                r["duration"] = Ellipsis     # not compared: the arithmetic on durations is not modelled
+            for k_, r in enumerate(out):
+                # "the extent of the merged events": from the kept row's onset to the latest end among them;
+                # rows that absorbed nothing are not compared (their cells may merely change type)
+                if k_ in extent and extent[k_] is not None:
+                    try:
+                        r["duration"] = ("extent", extent[k_] - float(r["onset"]))
+                    except (TypeError, ValueError):
+                        r["duration"] = Ellipsis
+                else:
+                    r["duration"] = Ellipsis
         return cols, out
     if k == "split_rows":
         if "onset" not in cols or "duration" not in cols:
             raise ValueError("documented")
-        if any(v is Ellipsis for r in rows for v in r.values()):
+        if any(v is Ellipsis or isinstance(v, tuple) for r in rows for v in r.values()):
             raise Skip()
         anchor = p["anchor_column"]
         newc = list(cols) + ([anchor] if anchor not in cols else [])
@@ -404,6 +425,12 @@ def ref_apply(o, cols, rows):
 def same_cell(a, b):
     if a is Ellipsis or b is Ellipsis:
         return True
+    for x, y in ((a, b), (b, a)):
+        if isinstance(x, tuple) and x and x[0] == "extent":
+            try:
+                return abs(float(y) - x[1]) <= 1e-9 * max(1.0, abs(x[1]))
+            except (TypeError, ValueError):
+                return False
     a, b = ref_value(a), ref_value(b)
     if a == b:
         return True
